@@ -237,6 +237,10 @@ template <std::size_t... I> static void layout_impl(Ctx& c, std::index_sequence<
   o.key("telem_off"); std::fputc('[', o.f); for (size_t i = 0; i < to.size(); ++i) std::fprintf(o.f, "%s%ld", i ? "," : "", to[i]); std::fputc(']', o.f);
   auto putl = [&](const char* k, const std::vector<long>& v) { o.key(k); std::fputc('[', o.f); for (size_t i = 0; i < v.size(); ++i) std::fprintf(o.f, "%s%ld", i ? "," : "", v[i]); std::fputc(']', o.f); };
   putl("elem_off_view", eo_m); putl("elem_off_cview", eo_c); putl("elem_off_const", eo_k); putl("telem_off_view", to_m); putl("telem_off_cview", to_c);
+  // Random / setRandom / Zero / setZero / setIdentity of the bundle act on every element
+  { G R1 = G::Random(), R2 = X; R2.setRandom(); G I2 = X; I2.setIdentity(); T r1 = T::Random(), r2 = t; r2.setRandom(); T z1 = T::Zero(), z2 = t; z2.setZero();
+    o.vec("rand", R1.coeffs()); o.vec("rand2", R2.coeffs()); o.vec("setid", I2.coeffs()); o.vec("ident", G::Identity().coeffs());
+    o.vec("trand", r1.coeffs()); o.vec("trand2", r2.coeffs()); o.vec("tzero", z1.coeffs()); o.vec("tsetzero", z2.coeffs()); }
   o.end();
 }
 static void op_layout(Ctx& c) { layout_impl(c, std::make_index_sequence<G::BundleSize>()); }
